@@ -27,7 +27,7 @@ sys.path.insert(0, HERE)
 sys.path.insert(0, REPO)
 
 CONTRACT_MODULES = ['contracts.validators', 'contracts.ir_types', 'contracts.runtime_base', 'contracts.serializers',
-                    'contracts.cli', 'contracts.generator', 'contracts.entrypoints', 'contracts.backend',
+                    'contracts.cli', 'contracts.generator', 'contracts.entrypoints', 'contracts.backend', 'contracts.frontend',
                     'contracts.canary', 'lemmas.c10', 'lemmas.c04']
 
 
@@ -218,6 +218,7 @@ def native(req, timeout=600):
         env = dict(os.environ)
         env['PYTHONPATH'] = HERE + os.pathsep + REPO
         env['PYTHONHASHSEED'] = '0'
+        env['PYVC_TIER'] = req.get('tier', 'quick')
         pr = subprocess.run([NATIVE_PY, '-m', 'pyvc.native', path], capture_output=True, text=True,
                             env=env, cwd=HERE, timeout=timeout)
         if pr.returncode != 0:
@@ -310,8 +311,10 @@ def main():
         if r.get('crash'):
             return None
         n_here = n_search * 4 if r.get('bounded_only') else n_search
+        if not t.startswith('lemma:') and CT.REGISTRY[t].opts.get('samples'):
+            n_here = CT.REGISTRY[t].opts['samples'][args.tier]
         return native({'mode': 'search', 'contract_modules': CONTRACT_MODULES, 'target': t,
-                       'n': n_here, 'seed': seed,
+                       'n': n_here, 'seed': seed, 'tier': args.tier,
                        'known_cases': [k['case'] for k in known if k.get('status') == 'known' and k['target'] == t
                                        and k['property'] == prop and k.get('case')]}, timeout=3600)
     import concurrent.futures
@@ -339,6 +342,8 @@ def main():
         bad = [o for o in r['obligations'] if o['status'] != 'discharged']
         # bounded oracle comparison (never counted as proved): every function, every run
         n_here = n_search * 4 if r.get('bounded_only') else n_search
+        if not t.startswith('lemma:') and CT.REGISTRY[t].opts.get('samples'):
+            n_here = CT.REGISTRY[t].opts['samples'][args.tier]
         sr = search_results[t]
         if r.get('bounded_only'):
             bounded_only_funcs.append(t)
